@@ -17,6 +17,10 @@ import (
 type SchemaCache struct {
 	mu       sync.Mutex
 	packages map[string]*Package
+
+	// registered lists the refs added to the cache by the Schema call in
+	// progress, so that a failed build can take them out again.
+	registered []*RefSchema
 }
 
 func NewSchemaCache() *SchemaCache {
@@ -30,7 +34,18 @@ func (sc *SchemaCache) Schema(src protoreflect.MessageDescriptor) (RootSchema, e
 	verifhook.At("schema.enter")
 	sc.mu.Lock()
 	defer sc.mu.Unlock()
-	return sc.schemaLocked(src)
+	sc.registered = sc.registered[:0]
+	root, err := sc.schemaLocked(src)
+	if err != nil {
+		// A failed build leaves nothing behind: a placeholder without a schema,
+		// or a schema referring to one, would otherwise be handed out to later
+		// callers as if it were complete.
+		for _, ref := range sc.registered {
+			delete(ref.Package.Schemas, ref.Schema)
+		}
+	}
+	sc.registered = nil
+	return root, err
 }
 
 // schemaLocked is Schema with sc.mu held. Building recurses into refTo and
@@ -54,6 +69,7 @@ func (sc *SchemaCache) schemaLocked(src protoreflect.MessageDescriptor) (RootSch
 	}
 	verifhook.At("cache.insert")
 	schemaPackage.Schemas[nameInPackage] = placeholder
+	sc.registered = append(sc.registered, placeholder)
 
 	msgOptions := proto.GetExtension(src.Options(), ext_j5pb.E_Message).(*ext_j5pb.MessageOptions)
 	isOneofWrapper := isOneofWrapper(src, msgOptions)
@@ -87,6 +103,7 @@ func (sc *SchemaCache) refTo(pkg, schema string) (*RefSchema, bool) {
 	}
 	verifhook.At("refto.insert")
 	refPackage.Schemas[schema] = refSchema
+	sc.registered = append(sc.registered, refSchema)
 
 	return refSchema, false
 }
